@@ -212,6 +212,7 @@ LS2Vecs ==
   \o Cross2(OffTypes, << << 7, 4 >>, << 0, 0 >>, << 1, 0 >>, << 11, 4 >> >>, LAMBDA t, p :
        LS2One(LS2Enc("key", p[1], p[2], T4[6], << 2, 88 >>, 1, t, OptSets[3], 1, << KeyShapes[1] >>, 2, 2, 3), "ls2-offline/" \o ToString(t) \o "/" \o ToString(p[1])))
   \o SeqMap(LAMBDA ps : LS2One(LS2Enc("key", 7, 4, T4[6], << 2, 88 >>, 0, 7, ps, 1, << KeyShapes[1] >>, 1, 1, 4), "ls2-opts"), OptSets)
+  \o SeqMap(LAMBDA p : LS2One(LS2Enc("key", p[1], p[2], T4[6], << 2, 88 >>, 1, 7, OptSets[1], 1, << KeyShapes[1] >>, 1, 1, p[1] + p[2] + 3), "ls2-offline-dest/" \o ToString(p[1]) \o "/" \o ToString(p[2])), DestPairs)
   \o SeqMap(LAMBDA n : LS2One(LS2Enc("key", 7, 4, T4[6], << 2, 88 >>, 0, 7, OptSets[1], n, NKeys(n), 1, 1, 5), "ls2-nk" \o ToString(n)), << 0, 1, 2, 3, 15, 16, 17 >>)
   \o SeqMap(LAMBDA ks : LS2One(LS2Enc("key", 7, 4, T4[6], << 2, 88 >>, 0, 7, OptSets[1], 1, << ks >>, 1, 1, 6), "ls2-key/" \o ToString(ks[1]) \o "/" \o ToString(ks[2])), KeyShapes)
   \o SeqMap(LAMBDA n : LS2One(LS2Enc("key", 7, 4, T4[6], << 2, 88 >>, 0, 7, OptSets[1], 1, << KeyShapes[1] >>, n, n, 7), "ls2-nl" \o ToString(n)), << 0, 1, 2, 15, 16, 17 >>)
@@ -242,6 +243,8 @@ MetaVecs ==
   \o SeqMap(LAMBDA n : MetaOne(MetaEnc("key", 7, 4, 0, 7, OptSets[1], n, n, 5, OptSets[1], 6), "meta-ne" \o ToString(n)), << 0, 1, 2, 15, 16, 17 >>)
   \o SeqMap(LAMBDA t : MetaOne(MetaEnc("key", 7, 4, 0, 7, OptSets[1], 1, 1, t, OptSets[1], 7), "meta-etype" \o ToString(t)), << 0, 1, 2, 3, 4, 5, 7, 255 >>)
   \o << MetaOne(MetaEnc("null", 0, 0, 0, 7, OptSets[1], 1, 1, 3, OptSets[1], 8), "meta-small-dsa") >>
+  \* the key-type policy does not depend on who signs: every destination pair again WITH offline keys
+  \o SeqMap(LAMBDA p : MetaOne(MetaEnc("key", p[1], p[2], 1, 7, OptSets[1], 1, 1, 3, OptSets[1], p[1] + p[2] + 3), "meta-offline-dest/" \o ToString(p[1]) \o "/" \o ToString(p[2])), DestPairs)
 
 ELSEnc(st, pub4, exp2, flags, tst, innerDecl, innerAct, salt) ==
   LET has == flags % 2 = 1 IN
